@@ -87,7 +87,8 @@ for sid in args:
             rec["check"] = {"applied": False}
         else:
             t0 = time.time()
-            rc, o = run("./check %s --tier quick" % pid, cwd="/verif")
+            os.makedirs("/tmp/seed_evidence", exist_ok=True)
+            rc, o = run("./check %s --tier quick" % pid, cwd="/verif", env=dict(os.environ, VERIF_EVIDENCE_DIR="/tmp/seed_evidence"))
             open(d + "/check_output_head.txt", "w").write(o)
             rec["check"] = {"applied": how, "cmd": "./check %s --tier quick" % pid, "exit": rc, "wall_s": round(time.time() - t0),
                             "violation_lines": [l[:300] for l in o.splitlines() if l.startswith("VIOLATION")],
